@@ -28,7 +28,8 @@ import (
 var zzErrAuth8 = errors.New("zz: authentication failed")
 
 type zzSuite8 struct {
-	init bool
+	init   bool
+	reject bool // every record fails authentication
 }
 
 func (s *zzSuite8) String() string                               { return "zz8" }
@@ -46,7 +47,7 @@ func (s *zzSuite8) Encrypt(pkt *recordlayer.RecordLayer, raw []byte) ([]byte, er
 	return raw, nil
 }
 func (s *zzSuite8) Decrypt(h recordlayer.Header, in []byte) ([]byte, error) {
-	if !zzsymBool("authOK") {
+	if s.reject || !zzsymBool("authOK") {
 		return nil, zzErrAuth8
 	}
 	return in, nil
@@ -232,6 +233,52 @@ func zzRxJunkDatagramDropped() {
 	_, err := c.readAndProcessDatagram(context.Background())
 	zzsymAssert(err == nil || c.classifyReadLoopError(err) == readLoopContinue, "unparseable_datagram_is_silently_discarded")
 	zzsymAssert(len(c.decrypted) == 0 && c.nextConn.(*zzNet8).writes == 0, "unparseable_datagram_has_no_effect")
+}
+
+// A datagram that FILLS the receive buffer (inboundBufferSize bytes or more arrive; the socket hands over the first
+// inboundBufferSize) is one more datagram: a single DTLS 1.2-framed record with arbitrary type, version and sequence
+// number that claims the current epoch, spans the whole buffer and fails authentication, on an established DTLS 1.2
+// connection with and without a local CID and on a DTLS 1.3 one. Nothing is written - no alert -, nothing is
+// delivered, no error stops the read loop or reaches Read. The size of the datagram alone must not matter.
+//
+//symgo:entry covers=buffer_filling_datagram_dropped
+func zzRxBufferFillingDatagramDropped() {
+	state := 2 + zzsymChoice("state", 3)
+	var c *Conn
+	switch state {
+	case 2:
+		c = zzConn8(&zzSuite8{init: true, reject: true}, false)
+		dtlsstate.CommonState(c.state).LocalVersion = protocol.Version1_2
+	case 3:
+		c = zzConn8(&zzSuite8{init: true, reject: true}, true)
+		common := dtlsstate.CommonState(c.state)
+		common.LocalVersion = protocol.Version1_2
+		common.SetLocalConnectionID(zzsymBytes("lcid", 2))
+	case 4:
+		c = zzConn8(&zzSuite8{reject: true}, false)
+		st := dtlsstate.Activate13(c.state)
+		c.state = st
+		st.LocalVersion = protocol.Version1_3
+	}
+	c.handshakeEstablished = dtlshandshake.NewEstablishment()
+	dtlshandshake.ZZMarkEstablished(c.handshakeEstablished)
+	dtlsstate.CommonState(c.state).SetRemoteEpoch(1)
+	size := inboundBufferSize + 100*zzsymChoice("beyond_buffer", 2)
+	dgram := make([]byte, size)
+	hdr := zzsymBytes("hdr", 11)
+	copy(dgram, hdr)
+	zzsymAssume(hdr[0] != byte(protocol.ContentTypeChangeCipherSpec) && hdr[0] != byte(protocol.ContentTypeHandshake) && hdr[0]&0xe0 != 0x20)
+	zzsymAssume(hdr[3] == 0 && hdr[4] == 1) // claims the current protected epoch; the cipher refuses it (forgery)
+	body := inboundBufferSize - 13
+	dgram[11], dgram[12] = byte(body>>8), byte(body)
+	c.nextConn.(*zzNet8).incoming = dgram
+	_, err := c.readAndProcessDatagram(context.Background())
+	if len(c.decrypted) > 0 {
+		return // an authentic application record of that size is simply delivered
+	}
+	zzsymAssert(c.nextConn.(*zzNet8).writes == 0, "buffer_filling_datagram_answered_with_nothing")
+	zzsymAssert(err == nil || c.classifyReadLoopError(err) == readLoopContinue, "buffer_filling_datagram_does_not_stop_the_read_loop")
+	zzsymCover("buffer_filling_datagram_dropped")
 }
 
 // "Datagrams that cannot be parsed as DTLS records are dropped, and the endpoint keeps serving", second half: a
